@@ -341,6 +341,8 @@ def _par(vk, name, near=1.0, spread=0.3):
 # (diagonal restriction), 'aniso' anisotropic (objectivity only, through the wrapper contract)
 def model_params(vk, name, variant):
     p = lambda n, near=1.0: _par(vk, n, near)  # noqa: E731
+    # exponents: exact constants of the ring (so that 3 ** (1 - alpha) is the exact power, A1), floats natively
+    Q = (lambda *a: LP.const(Fr(*a))) if vk.sym else (lambda *a: float(Fr(*a)))  # noqa: E731
     if name == "neo_hooke":
         return dict(mu=p("mu"))
     if name == "mooney_rivlin":
@@ -484,6 +486,7 @@ def model(vk, cfg):
     s0 = 1.25 if name == "van_der_waals" else 1.0
     C = M.sym_matrix(vk, "C", near=[[s0 if i == j else 0.0 for j in range(3)] for i in range(3)], spread=0.12)
     t = vk.reals("t", (), near=0.4, spread=0.9)
+    vk.requires(det_ref(C), ">")  # C = F^T F with det F > 0
     psi = run_model(vk, backend, name, C, kw)
     vk.note("model contracts are stated on the domain of the executed model code: bases of roots / arguments of log positive, denominators non-zero (listed as assumed side conditions)")
     for k in AXES:
@@ -513,6 +516,8 @@ def model(vk, cfg):
         vk.ensures_zero("stress-free-reference/dpsi/dC(I)==0", dpsi)
     else:
         Cd, (a, b, c) = M.diag_matrix(vk)
+        for x in (a, b, c):
+            vk.requires(x, ">")
         pd = run_model(vk, backend, name, Cd, kw)
         oned = {ring.gen_of(a): 1, ring.gen_of(b): 1, ring.gen_of(c): 1}
         vk.ensures_zero("stress-free-reference/dpsi/d(a,b,c)(1,1,1)==0", np.array([ring.evalat(ring.D(pd, x), oned) for x in (a, b, c)], dtype=object))
@@ -550,6 +555,7 @@ def model_other(vk, cfg):
         _native_standins(vk)
         return
     C = M.sym_matrix(vk, "C")
+    vk.requires(det_ref(C), ">")  # C = F^T F with det F > 0
     one = {ring.gen_of(C[i, j]): (1 if i == j else 0) for i, j in TRI}
     w = lambda i, j: 1 if i == j else Fr(1, 2)  # noqa: E731
     f = getattr(TT, name)
@@ -634,27 +640,39 @@ def _native_standins(vk):
         "miehe_goektepe_lulei": lambda: fem.Hyperelastic(fem.miehe_goektepe_lulei, mu=0.1475, N=3.273, p=9.31, U=9.94, q=0.567),
         "jax.miehe_goektepe_lulei": lambda: _jax64(lambda: mj.Hyperelastic(JX.miehe_goektepe_lulei, mu=0.1475, N=3.273, p=9.31, U=9.94, q=0.567)),
     }
+    pm = [0.039, 0.371, 0.174, 2.41, 0.0094, 6.84, 5.65, 0.244]
+    sv_morph = np.zeros((13, 1, 1))
+    sv_morph[[1, 4, 6]] = 1.0  # virgin state: C_n = 1
+    import felupe.constitution.tensortrax.models.lagrange as TL
+
+    cases["lagrange.morph"] = lambda: mt.Material(TL.morph, nstatevars=13, p=pm)
+    cases["lagrange.morph_representative_directions"] = lambda: mt.Material(TL.morph_representative_directions, nstatevars=84, p=pm)
+    state = {"lagrange.morph": sv_morph, "lagrange.morph_representative_directions": np.zeros((84, 1, 1))}
     with symnp.native():
         for nm, fac in cases.items():
             try:
                 um = fac()
+                sv = state.get(nm)
                 worst, n = 0.0, 0
                 for _ in range(5):
                     F = (np.eye(3) + rng.rand(3, 3) / 5).reshape(3, 3, 1, 1)
                     Qm = rotm().reshape(3, 3, 1, 1)
-                    P = np.asarray(um.gradient([F, None])[0])
-                    PQ = np.asarray(um.gradient([M.mm(Qm, F), None])[0])
+                    P = np.asarray(um.gradient([F, sv])[0])
+                    PQ = np.asarray(um.gradient([M.mm(Qm, F), sv])[0])
                     worst = max(worst, float(np.abs(PQ - M.mm(Qm, P)).max()))
                     tau = M.mm(P, M.tr_(F))
                     worst = max(worst, float(np.abs(tau - M.tr_(tau)).max()))
-                    A = np.asarray(um.hessian([F, None])[0])
-                    worst = max(worst, float(np.abs(A - major_T(A)).max()))
-                    n += 3
-                P0 = np.asarray(um.gradient([EYE.copy(), None])[0])
-                vk.bounded_standin(f"{nm}: objectivity, Kirchhoff symmetry, major symmetry (native float)", "5 random F, 5 random rotations", n, worst < 1e-8, f"max deviation {worst:.2e}")
-                vk.bounded_standin(f"{nm}: stress-free reference (native float)", "F = I", 1, float(np.abs(P0).max()) < 1e-8, f"max |P(I)| = {float(np.abs(P0).max()):.2e}")
+                    n += 2
+                    if sv is None:  # hyperelastic: major symmetry
+                        A = np.asarray(um.hessian([F, sv])[0])
+                        worst = max(worst, float(np.abs(A - major_T(A)).max()))
+                        n += 1
+                P0 = np.asarray(um.gradient([EYE.copy(), sv])[0])
+                vk.bounded_standin(f"{nm}: objectivity, Kirchhoff symmetry" + (", major symmetry" if sv is None else "") + " (native float)", "5 random F, 5 random rotations", n, worst < 1e-7, f"max deviation {worst:.2e}")
+                vk.bounded_standin(f"{nm}: stress-free reference at the virgin state (native float)", "F = I", 1, float(np.abs(P0).max()) < 1e-6, f"max |P(I)| = {float(np.abs(P0).max()):.2e}")
             except Exception as e:  # pragma: no cover
                 vk.bounded_standin(f"{nm}: native stand-in failed", "-", 0, False, f"{type(e).__name__}: {str(e)[:120]}")
+    vk.note("MORPH Lagrange models (expm / eigvalsh of general arguments): objectivity and Kirchhoff symmetry follow from the lagrange wrapper contract if S depends on F through F^T F only; for the concrete functions this is only checked by the bounded native stand-ins")
     vk.note("not decided (bounded stand-ins only): stress-free reference and isotropy of alexander (hand-built dual numbers, no energy value), stress-free reference of the micro-sphere models (21-point float sphere rule: holds to table accuracy only); micro-sphere models are excluded from the isotropy clause by the property")
 
 
